@@ -181,6 +181,11 @@ def gen_cases(seed, tier):
             'q': int(rng.integers(1, 6)), 'fam': 'band',
             'e': int(rng.integers(4)), 'cap': CAPS[int(rng.integers(4))],
             'seed': sd()})
+    for _ in range(120 if quick else 3000):
+        conv.append({'kind': 'conv', 'd': int(rng.integers(2, 6)),
+            'q': int(rng.integers(1, 4)), 'fam': 'generic',
+            'e': int(rng.integers(4)), 'cap': 'big', 'constcores': True,
+            'seed': sd()})
     for _ in range(60 if quick else 1500):
         conv.append({'kind': 'reject', 'd': int(rng.integers(1, 5)),
             'n': NONPOW[int(rng.integers(12))], 'seed': sd()})
@@ -625,6 +630,27 @@ def run_conv(case, ctx, teneva):
     rmax = int(case.get('rmax', 5))
     r = [1] + [int(rng.integers(1, rmax + 1)) for _ in range(d - 1)] + [1]
     Y = [layout(rng, make_core(rng, fam, r[k], q, r[k + 1])) for k in range(d)]
+    if case.get('constcores'):
+        # cores that hold the same numbers in another shape: every core filled
+        # with one constant, rank profile a palindrome ((1, n, r) and (r, n, 1)
+        # have the same entries), or one block of numbers reshaped
+        c_ = float(rng.choice([1., 0.5, -2., 3.]))
+        if d >= 2:
+            half = [int(rng.integers(1, rmax + 1)) for _ in range(d // 2)]
+            r = [1] + half + (half[::-1] if d % 2 else half[:-1][::-1]) + [1]
+            r = (r + [1] * (d + 1))[:d] + [1]
+        if rng.random() < 0.6 or d < 2:
+            Y = [layout(rng, np.full((r[k], n, r[k + 1]), c_))
+                for k in range(d)]
+        else:
+            blk = {}
+            Y = []
+            for k in range(d):
+                sz = r[k] * n * r[k + 1]
+                if sz not in blk:
+                    blk[sz] = rng.normal(size=sz)
+                Y.append(blk[sz].reshape(r[k], n, r[k + 1]).copy())
+        ctx.event('cores-with-equal-numbers-in-other-shapes')
     if rng.random() < 0.04:
         # an identically zero TT-core (the zero tensor in TT form) is a valid
         # input: its QTT image must be the zero QTT-tensor, finite everywhere
